@@ -48,9 +48,9 @@ theorem nc_addIdentifiers {s : St} {t : Node} (h : unravelOk t = true) : NC (add
   · exact nc_fatal _ _
   · rename_i e he; simp [he] at h
 
-theorem nc_removeIdentifiers {s : St} {t : Node} (h : unravelOk t = true) : NC (removeIdentifiers s t) := by
+theorem nc_removeIdentifiers {s : St} {t : Node} (h : unravelFullOk t = true) : NC (removeIdentifiers s t) := by
   unfold removeIdentifiers
-  unfold unravelOk at h
+  unfold unravelFullOk at h
   split
   · exact nc_ok _
   · exact nc_fatal _ _
@@ -63,7 +63,7 @@ theorem nc_addIdentifiersL : ∀ (l : List Node) (s : St), l.all unravelOk = tru
     unfold addIdentifiersL
     exact nc_bind (nc_addIdentifiers h.1) (fun s => nc_addIdentifiersL r s h.2)
 
-theorem nc_removeIdentifiersL : ∀ (l : List Node) (s : St), l.all unravelOk = true → NC (removeIdentifiersL s l)
+theorem nc_removeIdentifiersL : ∀ (l : List Node) (s : St), l.all unravelFullOk = true → NC (removeIdentifiersL s l)
   | [], s, _ => by unfold removeIdentifiersL; exact nc_ok s
   | t :: r, s, h => by
     simp only [List.all_cons, Bool.and_eq_true] at h
@@ -181,4 +181,45 @@ theorem classInRhs_nc {env : Env} {c : Context} {v : Node} (h : classProbeOk v =
     · cases hx
   · cases hx
 
+/-! ### `del`: naming by full name crashes exactly when naming by basename does -/
+
+def urCrash : UR → Option Str
+  | .crash e => some e
+  | _ => none
+def urFatal : UR → Option Diag
+  | .fatal d => some d
+  | _ => none
+
+mutual
+theorem unravel_same : ∀ (n : Node), urCrash (unravelFullNames n) = urCrash (unravelNames n) ∧ urFatal (unravelFullNames n) = urFatal (unravelNames n)
+  | .seq kind elts c => by
+    unfold unravelFullNames unravelNames
+    split
+    · exact unravelL_same elts
+    · exact ⟨rfl, rfl⟩
+  | .name .. | .attr .. | .sub .. | .starred .. | .call .. => by
+    unfold unravelFullNames unravelNames
+    simp only [Node.isNameable, if_true]
+    cases namesOf false _ <;> exact ⟨rfl, rfl⟩
+  | .lam .. | .comp .. | .gen .. | .walrus .. | .strConst .. | .const | .dict .. | .assign .. | .annAssign ..
+  | .augAssign .. | .delete .. | .forLoop .. | .withStmt .. | .withitem .. | .funcDef .. | .classDef .. | .ret ..
+  | .forbidden .. | .other .. => by
+    unfold unravelFullNames unravelNames
+    exact ⟨rfl, rfl⟩
+theorem unravelL_same : ∀ (l : List Node), urCrash (unravelFullNamesL l) = urCrash (unravelNamesL l) ∧ urFatal (unravelFullNamesL l) = urFatal (unravelNamesL l)
+  | [] => by unfold unravelFullNamesL unravelNamesL; exact ⟨rfl, rfl⟩
+  | n :: r => by
+    have h1 := unravel_same n
+    have h2 := unravelL_same r
+    unfold unravelFullNamesL unravelNamesL
+    cases ha : unravelFullNames n <;> cases hb : unravelNames n <;> simp [ha, hb, urCrash, urFatal] at h1 ⊢
+    · cases hc : unravelFullNamesL r <;> cases hd : unravelNamesL r <;> simp [hc, hd, urCrash, urFatal] at h2 ⊢ <;> exact h2
+    · exact h1
+    · exact h1
+end
+
+theorem unravelFullOk_eq (n : Node) : unravelFullOk n = unravelOk n := by
+  have h := (unravel_same n).1
+  unfold unravelFullOk unravelOk
+  cases ha : unravelFullNames n <;> cases hb : unravelNames n <;> simp [ha, hb, urCrash] at h ⊢
 end Rattr.C07
